@@ -119,6 +119,10 @@ func (pb *patternBuilder) getPatternItem() error {
 		}
 		switch {
 		case c == 'f':
+			// A frontier pattern is %f followed by a set.
+			if pb.i >= len(pb.ptn) || pb.ptn[pb.i] != '[' {
+				return errInvalidPattern
+			}
 			s, err := pb.getCharClass()
 			if err == nil {
 				pb.emit(patternItem{s, ptnFrontier})
